@@ -24,6 +24,11 @@ func main() {
 			return
 		}
 		fmt.Println(safe(func() string { return ex(os.Args[3:]) }))
+	case "racechild":
+		seed, _ := strconv.ParseUint(os.Args[3], 10, 64)
+		g, _ := strconv.Atoi(os.Args[4])
+		p, _ := strconv.Atoi(os.Args[5])
+		fmt.Println(raceChild(os.Args[2], seed, g, p))
 	case "gen":
 		id, tier := os.Args[2], os.Args[3]
 		seed, _ := strconv.ParseUint(os.Args[4], 10, 64)
